@@ -17,6 +17,7 @@ package main
 //                   codecs with the protocol layout (shared with C12/C11)
 
 import (
+	"go/types"
 	"fmt"
 	"strings"
 
@@ -37,6 +38,59 @@ func checkC03(p *Prog, r *Report) {
 	c12Reencode(p, r, or, "C03.reencode")
 	c12Guard3(p, r, or)
 	codecLayouts(p, r, "C03")
+	// the session a request is forwarded on is keyed by the connection's compression: that field and
+	// the codec change together, and only after the STARTUP's compression was accepted
+	{
+		cl := p.proxyClientType()
+		r.borrow("C13", "C03", func() { c13Codec(p, r, cl, p.methodOf(cl, "Receive")) })
+	}
+	c03FrameOwnership(p, r)
+}
+
+// c03FrameOwnership: a frame handed from one goroutine to another (a backend reply on its way to
+// the client's writer, a request on its way to a backend's writer) owns its body bytes.
+func c03FrameOwnership(p *Prog, r *Report) {
+	const rule = "C03.frame-ownership"
+	r.Rule(rule, "the body of a raw frame built by the proxy is storage of its own (what the codec read, or the body of the frame it copies): never a slice of a buffer kept in a connection or proxy object, which the next frame read on that connection overwrites while this one still waits in a writer's queue")
+	var bad []string
+	n := 0
+	for _, fn := range p.ScopedFuncs("proxy", "proxycore", "codecs") {
+		for _, lit := range structLits(fn, func(t types.Type) bool { return typeIs(t, "frame", "RawFrame") }) {
+			v, ok := lit["Body"]
+			if !ok {
+				continue
+			}
+			n++
+			var walk func(v ssa.Value, depth int)
+			walk = func(v ssa.Value, depth int) {
+				if depth > 5 {
+					return
+				}
+				for _, o := range origins(v) {
+					if sl, ok := o.(*ssa.Slice); ok {
+						walk(sl.X, depth+1)
+						continue
+					}
+					f, base := loadedField(o)
+					if f == nil || base == nil {
+						continue
+					}
+					owner := namedOf(base.Type())
+					if owner == nil {
+						continue
+					}
+					if typeIs(owner, "frame", "RawFrame") || typeIs(owner, "frame", "Frame") || typeIs(owner, "codecs", "FrameBodyReader") {
+						continue // the body of the frame being copied
+					}
+					if owner.Obj().Pkg() != nil && strings.HasPrefix(owner.Obj().Pkg().Path(), modPath) {
+						bad = append(bad, fmt.Sprintf("%s: %s builds a frame whose body is a slice of %s.%s: that buffer is reused for the next frame while this one may still be queued for writing, so the bytes that leave are those of another frame", p.Pos(lit["\x00pos"].Pos()), fn.Name(), owner.Obj().Name(), f.Name()))
+					}
+				}
+			}
+			walk(v, 0)
+		}
+	}
+	r.check(len(bad) == 0 && n > 0, rule, "raw frame literals", "", fmt.Sprintf("%d literal(s) with a body", n), strings.Join(dedupe(bad), " || "))
 }
 
 // the override guard is part of transparency: everything else is forwarded as received
